@@ -347,7 +347,7 @@ func mgrRun(in mgrIn) mgrOut {
 		defer w.Mu.Unlock()
 		r := map[string]vk.Node{}
 		for h, n := range w.Nodes {
-			r[h] = *n
+			r[h] = n.Snapshot()
 		}
 		return r
 	}
